@@ -507,6 +507,73 @@ fn gen_star(rng: &mut Rng, span: i64) -> Vec<C> {
     v
 }
 
+/// many-vertex shapes for the "big" swarm: the cached R-tree gets several levels and single
+/// edges get long
+fn gen_big(rng: &mut Rng, span: i64) -> G {
+    let n = *rng.pick(&[40usize, 90, 150, 300]);
+    match rng.below(5) {
+        0 | 1 => {
+            // star-shaped polygon with n vertices on a fine grid, maybe with a hole
+            let cx = rng.range(span / 4, 3 * span / 4) as f64;
+            let cy = rng.range(span / 4, 3 * span / 4) as f64;
+            let r0 = span as f64 * (0.2 + 0.25 * rng.unit());
+            let mk = |rng: &mut Rng, r0: f64, n: usize| {
+                let mut v: Vec<C> = (0..n)
+                    .map(|k| {
+                        let ang = (k as f64) * std::f64::consts::TAU / (n as f64);
+                        let r = r0 * (0.7 + 0.3 * rng.unit());
+                        ((cx + r * ang.cos()).round() as i64, (cy + r * ang.sin()).round() as i64)
+                    })
+                    .collect();
+                v.dedup();
+                let f = v[0];
+                v.push(f);
+                v
+            };
+            let shell = mk(rng, r0, n);
+            let holes = if rng.chance(1, 2) { vec![mk(rng, r0 * 0.3, 3 + n / 10)] } else { vec![] };
+            G::Polygon(shell, holes)
+        }
+        2 => {
+            // zig-zag line string crossing the area many times
+            let y0 = rng.range(0, span);
+            G::LineString((0..n).map(|k| ((k as i64 * span) / n as i64, if k % 2 == 0 { y0 } else { y0 + 1 + (k as i64 % 5) })).collect())
+        }
+        3 => {
+            // many small members sharing one envelope row
+            let m = n / 8;
+            G::MultiPolygon(
+                (0..m)
+                    .map(|k| {
+                        let x = (k as i64 * span) / m as i64;
+                        let y = rng.range(0, span - 1);
+                        (vec![(x, y), (x + 1, y), (x + 1, y + 1), (x, y + 1), (x, y)], vec![])
+                    })
+                    .collect(),
+            )
+        }
+        _ => G::MultiLineString((0..n / 10).map(|_| gen_coords(rng, 2, 12, span)).collect()),
+    }
+}
+
+fn offset_geom(g: &G, d: C) -> G {
+    let o = |c: &C| (c.0 + d.0, c.1 + d.1);
+    let ov = |v: &Vec<C>| v.iter().map(o).collect::<Vec<C>>();
+    match g {
+        G::Point(c) => G::Point(o(c)),
+        G::Line(a, b) => G::Line(o(a), o(b)),
+        G::LineString(v) => G::LineString(ov(v)),
+        G::Polygon(e, is) => G::Polygon(ov(e), is.iter().map(ov).collect()),
+        G::MultiPoint(v) => G::MultiPoint(ov(v)),
+        G::MultiLineString(vs) => G::MultiLineString(vs.iter().map(ov).collect()),
+        G::MultiPolygon(ps) => G::MultiPolygon(ps.iter().map(|(e, is)| (ov(e), is.iter().map(ov).collect())).collect()),
+        G::Rect(a, b) => G::Rect(o(a), o(b)),
+        G::Triangle(a, b, c) => G::Triangle(o(a), o(b), o(c)),
+        G::Collection(gs) => G::Collection(gs.iter().map(|g| offset_geom(g, d)).collect()),
+        G::Enum(inner) => G::Enum(Box::new(offset_geom(inner, d))),
+    }
+}
+
 fn gen_ring(rng: &mut Rng, span: i64) -> Vec<C> {
     match rng.below(8) {
         0 => gen_star(rng, span * 3),
@@ -559,10 +626,26 @@ pub fn gen_geom(rng: &mut Rng, span: i64, depth: usize) -> G {
 
 pub fn gen_history(seed: u64) -> History {
     let mut rng = Rng::stream(seed, "c17-workload");
-    let span = *rng.pick(&[3i64, 4, 6, 6, 8, 12]);
+    // swarm: most histories are small, dense in coincidences and short; some have many-vertex
+    // geometries (multi-level R-tree, long edges), some are long (one handle reused dozens of
+    // times), some sit far from the origin
+    let big = rng.chance(1, 40);
+    let long = !big && rng.chance(1, 16);
+    let far = rng.chance(1, 8);
+    let span = if big { *rng.pick(&[40i64, 80, 160]) } else { *rng.pick(&[3i64, 4, 6, 6, 8, 12]) };
     let ng = 2 + rng.below(5);
-    let geoms: Vec<G> = (0..ng).map(|_| gen_geom(&mut rng, span, 0)).collect();
-    let n = 3 + rng.below(12);
+    let mut geoms: Vec<G> = (0..ng).map(|_| if big && rng.chance(1, 2) { gen_big(&mut rng, span) } else { gen_geom(&mut rng, span, 0) }).collect();
+    if far {
+        let d = *rng.pick(&[(4_000_000i64, -600_000i64), (-20_000_001, 7), (1 << 40, 1 << 40), (-3, 123_456_789)]);
+        geoms = geoms.iter().map(|g| offset_geom(g, d)).collect();
+    }
+    let n = if long {
+        30 + rng.below(70)
+    } else if big {
+        2 + rng.below(6)
+    } else {
+        3 + rng.below(12)
+    };
     let mut steps = vec![Step::Prepare { geom: rng.below(ng), owned: rng.chance(1, 2) }];
     // swarm: weights of the step kinds vary per run
     let w_prep = 1 + rng.below(3);
@@ -604,14 +687,29 @@ fn fails_same(h: &History, class: &str) -> Option<Violation> {
 }
 
 fn shrink_geom(g: &G) -> Vec<G> {
+    // candidates: drop a chunk (halves, quarters, ... for long vectors), then single elements
     let drop1 = |v: &Vec<C>| -> Vec<Vec<C>> {
-        (0..v.len())
-            .map(|i| {
+        let mut out: Vec<Vec<C>> = vec![];
+        let mut chunk = v.len() / 2;
+        while chunk >= 2 {
+            let mut start = 0;
+            while start < v.len() {
+                let mut t = v.clone();
+                let end = (start + chunk).min(t.len());
+                t.drain(start..end);
+                out.push(t);
+                start += chunk;
+            }
+            chunk /= 2;
+        }
+        if v.len() <= 24 {
+            for i in 0..v.len() {
                 let mut t = v.clone();
                 t.remove(i);
-                t
-            })
-            .collect()
+                out.push(t);
+            }
+        }
+        out
     };
     let mut out = vec![];
     match g {
@@ -689,6 +787,8 @@ fn shrink_geom(g: &G) -> Vec<G> {
 }
 
 pub fn minimise(h: &History, v: &Violation) -> (History, Violation) {
+    // bounded effort: a minimised replay is a convenience, the un-minimised one is just as valid
+    let deadline = std::time::Instant::now() + std::time::Duration::from_secs(8);
     let mut cur = h.clone();
     let mut curv = v.clone();
     if curv.step < cur.steps.len() {
@@ -697,7 +797,7 @@ pub fn minimise(h: &History, v: &Violation) -> (History, Violation) {
     loop {
         let mut changed = false;
         let mut i = 0;
-        while i < cur.steps.len() {
+        while i < cur.steps.len() && std::time::Instant::now() < deadline {
             let mut t = cur.clone();
             t.steps.remove(i);
             if let Some(v2) = fails_same(&t, &curv.class) {
@@ -710,6 +810,9 @@ pub fn minimise(h: &History, v: &Violation) -> (History, Violation) {
         }
         for gi in 0..cur.geoms.len() {
             for s in shrink_geom(&cur.geoms[gi]) {
+                if std::time::Instant::now() >= deadline {
+                    break;
+                }
                 let mut t = cur.clone();
                 t.geoms[gi] = s;
                 if let Some(v2) = fails_same(&t, &curv.class) {
@@ -720,7 +823,7 @@ pub fn minimise(h: &History, v: &Violation) -> (History, Violation) {
                 }
             }
         }
-        if !changed {
+        if !changed || std::time::Instant::now() >= deadline {
             break;
         }
     }
